@@ -928,6 +928,31 @@ def P1Site.namesOwnField (s : P1Site) : Bool :=
   | none => false
 
 
+/-! ### class names typedpy itself produces
+
+The class name is the first component of every message head (`f"{cls_name}.{e}"`), so the names
+typedpy gives to the classes IT creates are part of the formatter: `Partial[Foo]`,
+`AllFieldsRequired[Foo]`, `Extend[Foo]`, `Omit[Foo, …]`, `Pick[Foo, …]` without an explicit class
+name are called `PartialFoo`, `AllFieldsRequiredFoo`, `ExtendFoo`, `OmitFoo`, `PickFoo`
+(structures_reuse.py, structures.py). -/
+
+inductive Derive where
+  | partialOf | allRequired | extend | omit | pick
+deriving Repr, DecidableEq, Inhabited
+
+def Derive.pre : Derive → Text
+  | .partialOf => "Partial".toList
+  | .allRequired => "AllFieldsRequired".toList
+  | .extend => "Extend".toList
+  | .omit => "Omit".toList
+  | .pick => "Pick".toList
+
+/-- `__name__` of the derived class: the caller's explicit name, else prefix + base name -/
+def derivedName (d : Derive) (explicit : Option Text) (base : Text) : Text :=
+  match explicit with
+  | some n => n
+  | none => d.pre ++ base
+
 /-- the field text `p` names the top-level field `top` of class `cls?`:
     `[<Class>.]<top>(_<index> | _key | _value)*` (one suffix per nesting level) -/
 def namesField (cls : Option Text) (top : String) (p : Text) : Prop :=
